@@ -737,6 +737,7 @@ struct Opts {
     impl_filter: Option<String>,
     key_suffix: String,
     opaque: Vec<(String, String, String)>,
+    fn_mono: Vec<(String, String, String)>,
     log: Option<String>,
     names: Vec<String>,
     mono: bool,
@@ -746,7 +747,7 @@ struct Opts {
 fn parse_args() -> Opts {
     let args: Vec<String> = std::env::args().collect();
     let mut o = Opts { src: String::new(), opdesugar: false, mapcollect: false, extendmap: true, tryinto: true, renames: vec![], contracts: vec![], stubs: vec![],
-        items: vec![], impl_filter: None, key_suffix: String::new(), opaque: vec![], log: None, names: vec![], mono: true, label: String::new() };
+        items: vec![], impl_filter: None, key_suffix: String::new(), opaque: vec![], fn_mono: vec![], log: None, names: vec![], mono: true, label: String::new() };
     let mut i = 1;
     let split = |s: &String| -> Vec<String> { s.split(',').filter(|x| !x.is_empty()).map(|x| x.to_string()).collect() };
     while i < args.len() {
@@ -766,6 +767,7 @@ fn parse_args() -> Opts {
             "--key-prefix" => { i += 1; o.key_suffix = args[i].clone(); }
             "--label" => { i += 1; o.label = args[i].clone(); }
             "--opaque" => { i += 1; let p: Vec<&str> = args[i].splitn(3, "=>").collect(); if p.len() != 3 { eprintln!("VX-ERROR --opaque fn=>prefix=>replacement"); std::process::exit(4); } o.opaque.push((p[0].to_string(), p[1].to_string(), p[2].to_string())); }
+            "--fn-mono" => { i += 1; let p: Vec<&str> = args[i].splitn(2, ':').collect(); let q: Vec<&str> = p[1].splitn(2, '=').collect(); o.fn_mono.push((p[0].to_string(), q[0].to_string(), q[1].to_string())); }
             "--log" => { i += 1; o.log = Some(args[i].clone()); }
             s if s.starts_with("--") => { eprintln!("VX-ERROR unknown option {}", s); std::process::exit(4); }
             _ => { if o.src.is_empty() { o.src = a.clone(); } else { o.names.push(a.clone()); } }
@@ -858,6 +860,18 @@ fn process_fn(cx: &mut Ctx, vis: &Visibility, sig: &Signature, block: &Block, in
     let is_stub = cx.o.stubs.iter().any(|n| *n == name);
     let mut sig = sig.clone();
     let mut block = block.clone();
+    // R-MONO for function-level generics: instantiate the type parameter and drop the binder
+    for (f, tp, ty) in cx.o.fn_mono.iter() {
+        if *f != name { continue; }
+        sig.generics = Generics::default();
+        let ins = rename_ident_tokens(sig.inputs.to_token_stream(), tp, ty);
+        sig.inputs = syn::parse::Parser::parse2(syn::punctuated::Punctuated::<FnArg, Token![,]>::parse_terminated, ins).unwrap();
+        let out_ts = rename_ident_tokens(sig.output.to_token_stream(), tp, ty);
+        sig.output = syn::parse2(out_ts).unwrap();
+        let b_ts = rename_ident_tokens(block.to_token_stream(), tp, ty);
+        block = syn::parse2(b_ts).unwrap();
+        cx.p.log.push(format!("R-MONO fn {}: {} := {} (generic binder and where-clause dropped)", name, tp, ty));
+    }
     // attributes on parameters etc. are dropped by Passes; visit the whole fn through an ItemFn wrapper
     let mut ll = 0;
     let head = Ident::new(&format!("__vx_head_{}", fkey), proc_macro2::Span::call_site());
